@@ -76,7 +76,7 @@ def expand_with_depth(abbr, cfg, call=None):
 # agree along every route, also when the configuration carries text to wrap ("wrap with abbreviation": config['text'],
 # a string or a list of lines).
 WRAP_TEXT_AND_ROUTES = True          # generator class: every call route x wrapped text x alias that is not the text target
-EMPTY_WRAP_TEXT = True              # ... including text that is given but false ('' / []): OFF, exposes a genuine defect (see final report of v2-sxc14)
+EMPTY_WRAP_TEXT = True              # ... including text that is given but false ('' / []): on since repair ce85773 (the texts were left visible to snippet resolution)
 
 ROUTES = [
     'expand',                            # emmet.expand(abbr, dict)
